@@ -3,7 +3,7 @@ ID = "C06"
 PROP = {
     "coq_targets": ["Properties/C06.vo", "Extract/ExUrl.vo"],
     "driver": {"model": "url_model.ml", "src": "drv_url.ml", "exe": "url_driver"},
-    "bin": "urlhist",
+    "bin": "c06",
     "harness_args": ["C06"],
     "profiles": ["dev"],
     "rule": "streams: corpus of histories; exhaustive (every start URL of a 43-URL pool x every operation kind x every argument of an 85-string delimiter-rich pool, one step each); random histories of 1-8 mutating calls (Url::set_*, set_ip_host, path_segments_mut sessions, quirks setters) from pool or randomly generated parsed URLs. After every step the model and the implementation are compared on the whole record (serialization, 7 offsets, host kind, port) and the returned status, all 16 read accessors and the 10 quirks getters - this is the before/after getter vector and the byte-equality of as_str() across failing calls that C06 needs. wf_b is evaluated by the model on every observed record (histogram key wf_b:*). Non-trivial = every step/observation; distinct = distinct request lines. In search mode (only after a proof or the correspondence broke) prop_c06 evaluates on the implementation: failed call => identical Url; successful call => every component outside touched(op) unchanged.",
